@@ -41,7 +41,7 @@ def run_scenario(case):
     class Clock:
         @staticmethod
         def time():
-            return loop.time()
+            return loop.time() + 1700000000.0      # wall clock and loop clock differ, as they do in reality
     saved_time = S.time
     S.time = Clock
     try:
